@@ -257,6 +257,9 @@ def run_session(scn, sched, keep_sim=True, max_decisions=None, extra_setup=None)
             vanish = None
             if abort.get('seat') == seat and abort.get('kind') in ('offend',):
                 overrides = {(abort['board'], abort['phase'], abort['index']): abort['raw']}
+                if abort.get('crash'):
+                    overrides[('crash',)] = True
+                    sim.count_fault('offender.crash')
             if abort.get('seat') == seat and abort.get('kind') == 'vanish':
                 vanish = (abort['board'], abort['phase'], abort['index'])
             if abort.get('seat') == seat and abort.get('kind') == 'leave':
